@@ -610,34 +610,23 @@ fn compare_values(a: &Value, b: &Value) -> Option<std::cmp::Ordering> {
 }
 
 /// A group key for hash-based aggregation.
+///
+/// Each part keeps the original value (hashed and compared by identity), so that the
+/// key columns of the output carry the values that were grouped, whatever their type.
 #[derive(Debug, Clone, PartialEq, Eq, Hash)]
-pub struct GroupKey(Vec<GroupKeyPart>);
-
-#[derive(Debug, Clone, PartialEq, Eq, Hash)]
-enum GroupKeyPart {
-    Null,
-    Bool(bool),
-    Int64(i64),
-    String(String),
-}
+pub struct GroupKey(Vec<grafeo_common::types::HashableValue>);
 
 impl GroupKey {
     /// Creates a group key from column values.
     fn from_row(chunk: &DataChunk, row: usize, group_columns: &[usize]) -> Self {
-        let parts: Vec<GroupKeyPart> = group_columns
+        let parts: Vec<grafeo_common::types::HashableValue> = group_columns
             .iter()
             .map(|&col_idx| {
-                chunk
+                let value = chunk
                     .column(col_idx)
                     .and_then(|col| col.get_value(row))
-                    .map_or(GroupKeyPart::Null, |v| match v {
-                        Value::Null => GroupKeyPart::Null,
-                        Value::Bool(b) => GroupKeyPart::Bool(b),
-                        Value::Int64(i) => GroupKeyPart::Int64(i),
-                        Value::Float64(f) => GroupKeyPart::Int64(f.to_bits() as i64),
-                        Value::String(s) => GroupKeyPart::String(s.to_string()),
-                        _ => GroupKeyPart::String(format!("{v:?}")),
-                    })
+                    .unwrap_or(Value::Null);
+                grafeo_common::types::HashableValue(value)
             })
             .collect();
         GroupKey(parts)
@@ -645,15 +634,7 @@ impl GroupKey {
 
     /// Converts the group key back to values.
     fn to_values(&self) -> Vec<Value> {
-        self.0
-            .iter()
-            .map(|part| match part {
-                GroupKeyPart::Null => Value::Null,
-                GroupKeyPart::Bool(b) => Value::Bool(*b),
-                GroupKeyPart::Int64(i) => Value::Int64(*i),
-                GroupKeyPart::String(s) => Value::String(s.clone().into()),
-            })
-            .collect()
+        self.0.iter().map(|part| part.0.clone()).collect()
     }
 }
 
